@@ -67,6 +67,12 @@ CHECKS = {
             'Trusted: vendored /usr/include/elf.h (glibc 2.36), LLVM 14 BinaryFormat headers, hand-transcribed supplements with citations (vf/registry/c17_supp.py), readelf 2.40 for V850 only. '
             'Names without any registry counterpart (53) are reported as unreferenced, not verified.',
             'DESIGN.md 4/C17'),
+    'C20': ('Hypothesis-generated build-attribute sections x consumption patterns and .ARM.exidx/.ARM.extab tables, own encoders; exhaustive first-byte / two-byte opcode sweep against an EHABI table-4 disassembler',
+            'Exploration: subsections, scoped sub-subsections and attributes (uleb, NTBS, compatibility, nested also-compatible-with) of ARM and RISC-V attribute sections '
+            'under 12 consumption patterns (lock-step, list() first, num_*/properties, filters, interleaved stream users); exidx entries (prel31 sign classes, every entry kind, '
+            'compact models 0-2 with extra words, generic, corrupt), exact byte-code and its disassembly; all 256 first bytes and every second byte of two-byte opcodes enumerated.',
+            'Trusted: encoders and the table-4 disassembler in vf/checks/c20.py (refereed against llvm-readelf -u on 9,345 little-endian entries and readelf -A), vf/enc/elf.py.',
+            'DESIGN.md 4/C20'),
 }
 
 NOT_YET = {}
